@@ -6,7 +6,8 @@ sample k, e = d - y, update mu*e*conj(x); lock as a two-state machine).  MC_Adap
 Conformance (Trace_Adaptive): integer LMS (real, complex; mu 1, 2; random framings and lock schedules): TLC recomputes
 y, e and coeffs() of every call exactly; general filters (LMS with leakage, NLMS, RLS; real, complex): e == d - y bit
 for bit, locked => coeffs() bit-identical and output = plain FIR with coeffs(), first sample of every call = output of
-the coefficients read before the call (a-priori); NLMS/RLS identification to 1e-6 misalignment; real RLS = the
+the coefficients read before the call (a-priori); LMS/NLMS against the textbook recursion in long double, sample by sample,
+with random lock phases (1e-8); NLMS/RLS identification to 1e-6 misalignment; real RLS = the
 exponentially weighted, diagonally regularised least-squares solution (normal equations in long double)."""
 from . import simple
 
